@@ -2,4 +2,4 @@ From Coq Require Extraction ExtrOcamlBasic.
 From Wz Require Import lib.Bytes lib.ExtractBase C11.Base C11.Gen C11.Model.
 Extraction Language OCaml.
 Extraction "C11/model_extracted.ml" force_types respond parse_etags parse_range_header unquote_etag
-  range_for_length to_content_range_header is_byte_range_valid is_resource_modified range_wrapper plain_int dec_Z send_file_respond.
+  range_for_length to_content_range_header is_byte_range_valid is_resource_modified range_wrapper plain_int dec_Z send_file_respond content_range_416 wsgi_header_kept.
